@@ -550,7 +550,7 @@ func (fifoComp) NewRunner(begin string) Runner {
 func (r *fifoRunner) Close() {}
 
 func (r *fifoRunner) collect(want int) string {
-	deadline := time.Now().Add(500 * time.Millisecond)
+	deadline := time.Now().Add(10 * time.Second)
 	for {
 		r.mu.Lock()
 		n := len(r.inv)
